@@ -285,7 +285,8 @@ var txCounter uint64
 // NewTxID returns a fresh hex transaction id.
 func NewTxID() string {
 	n := atomic.AddUint64(&txCounter, 1)
-	return fmt.Sprintf("%032x", n)
+	// hex letters in every id: the upper-case spelling of an id is another string
+	return fmt.Sprintf("fade%028x", n)
 }
 
 // Peer hosts one chaincode instance on one channel ledger.
